@@ -1,12 +1,7 @@
 import Gaftools.Props.C19
-import Gaftools.Props.TieA
-import Gaftools.Props.TieA2
 #print axioms Gaftools.C19.isSecondary_iff
 #print axioms Gaftools.C19.stat_counts
 #print axioms Gaftools.C19.stat_reads_bases
 #print axioms Gaftools.C19.stat_best
 #print axioms Gaftools.C19.stat_cigar
 #print axioms Gaftools.C19.stat_perm
-#print axioms Gaftools.TieA.isSecondary_gen_eq_model
-#print axioms Gaftools.TieA.bump_gen
-#print axioms Gaftools.TieA.cigarStep_gen
